@@ -528,7 +528,7 @@ func apiCase(seed uint64) {
 
 func evalCase(seed uint64) { checkEval(seed, lib.NewRNG(seed)) }
 
-var exhScripts = []int{1, 9, 18, 19}
+var exhScripts = []int{1, 9, 18, 19, 23, 24, 25}
 
 func main() {
 	f := lib.ParseFlags()
